@@ -23,7 +23,7 @@ Definition str_of_ty (t:ty) : str :=
   | TyWords => s_ "words" | TyStrings => s_ "strings" | TyStr => s_ "str" | TyQstr => s_ "qstr"
   | TyPath => s_ "path" | TyKey => s_ "key" | TyBool => s_ "bool"
   | TyInt a b n =>
-      with_kwds "int" (opt_kw "value_min" a ++ opt_kw "value_max" b ++ (if n then [s_ "allow_none=True"] else []))
+      with_kwds "int" (opt_kw "value_min" a ++ opt_kw "value_max" b ++ [if n then s_ "allow_none=True" else s_ "allow_none=False"])
   | TyInts smin smax a b ne ae =>
       with_kwds "ints"
         ((if opt_eqb smin smax then opt_kw "size" smin else opt_kw "size_min" smin ++ opt_kw "size_max" smax)
@@ -34,12 +34,12 @@ Definition str_of_ty (t:ty) : str :=
   | TyOther p => p
   end.
 
-(* ---------- textwrap.wrap(text, width) with default options, on the subset where it only ever
-   breaks at runs of ASCII blanks.  None = outside the subset (tab, hyphen, non-ASCII blank,
-   a chunk longer than the width, width <= 0). *)
+(* ---------- textwrap.wrap(text, width, expand_tabs=False, break_long_words=False, break_on_hyphens=False):
+   the text is broken only at runs of ASCII blanks.  None = outside the modelled subset (a blank that
+   only str.strip() treats as such: code points 28-31, 133, 160) or width <= 0 (Python raises ValueError). *)
 Definition ascii_ws (c:ascii) : bool := let n := nat_of c in (((9 <=? n) && (n <=? 13)) || (n =? 32))%nat.
 Definition wrap_unsupported (c:ascii) : bool :=
-  let n := nat_of c in ((n =? 9) || (n =? 45) || ((28 <=? n) && (n <=? 31)) || (n =? 133) || (n =? 160))%nat.
+  let n := nat_of c in (((28 <=? n) && (n <=? 31)) || (n =? 133) || (n =? 160))%nat.
 (* chunks: maximal runs of blanks / non-blanks; blanks are replaced by spaces first *)
 Fixpoint chunks (s:str) (cur:str) (cur_ws:bool) : list (bool * str) :=
   match s with
@@ -60,36 +60,33 @@ Fixpoint fill (width:Z) (cur_len:Z) (cs:list (bool*str)) (acc:list (bool*str)) :
   | (w, c) :: r => if (cur_len + zlen c <=? width)%Z then fill width (cur_len + zlen c)%Z r ((w, c) :: acc)
                    else (acc, cs)
   end.
-Fixpoint wrap_lines (fuel:nat) (width:Z) (cs:list (bool*str)) (first:bool) : option (list str) :=
-  match fuel with 0%nat => None | S f =>
+Definition drop_trailing_ws (racc:list (bool*str)) : list (bool*str) :=
+  match racc with (true, _) :: t => t | _ => racc end.
+Fixpoint wrap_lines (fuel:nat) (width:Z) (cs:list (bool*str)) (have_lines:bool) : list str :=
+  match fuel with 0%nat => [] | S f =>
   match cs with
-  | [] => Some []
+  | [] => []
   | _ =>
-    let cs1 := match cs with (true, _) :: r => if first then cs else r | _ => cs end in
+    let cs1 := match cs with (true, _) :: r => if have_lines then r else cs | _ => cs end in
     match cs1 with
-    | [] => Some []
+    | [] => []
     | _ =>
-      let (racc, rest) := fill width 0 cs1 [] in
-      match rest with
-      | (_, c) :: _ => if (zlen c >? width)%Z then None else
-          let racc' := match racc with (true, _) :: t => t | _ => racc end in
-          match racc' with
-          | [] => wrap_lines f width rest false
-          | _ => option_map (cons (List.concat (map snd (rev racc')))) (wrap_lines f width rest false)
-          end
-      | [] =>
-          let racc' := match racc with (true, _) :: t => t | _ => racc end in
-          match racc' with
-          | [] => Some []
-          | _ => Some [List.concat (map snd (rev racc'))]
-          end
+      let (racc0, rest0) := fill width 0 cs1 [] in
+      (* a chunk longer than the width goes on a line of its own when the current line is empty *)
+      let (racc, rest) := match racc0, rest0 with
+                          | [], c :: r => if (zlen (snd c) >? width)%Z then ([c], r) else (racc0, rest0)
+                          | _, _ => (racc0, rest0) end in
+      let racc' := drop_trailing_ws racc in
+      match racc' with
+      | [] => wrap_lines f width rest have_lines
+      | _ => List.concat (map snd (rev racc')) :: wrap_lines f width rest true
       end
     end
   end end.
 Definition wrap (text:str) (width:Z) : option (list str) :=
   if (width <=? 0)%Z then None
   else if existsb wrap_unsupported text then None
-  else let cs := chunks text [] false in wrap_lines (S (length cs)) width cs true.
+  else let cs := chunks text [] false in Some (wrap_lines (S (S (length cs * 2))) width cs false).
 
 (* ---------- show_attributes *)
 Definition line (s:str) : str := s ++ [nl].
@@ -111,7 +108,7 @@ Definition show_attr (prefix:str) (name:str) (v:aval) (level:Z) (width:Z) : res 
     let head := prefix ++ s_ "  ." ++ name ++ s_ " = " in
     match v with
     | AStr value =>
-        let indent := spaces (length prefix + 3 + length name + 3) in
+        let indent := prefix ++ spaces (3 + length name + 3) in
         let fits := fun (t:str) => (zlen indent + zlen t <? width)%Z in
         let value' := if negb (is_ident value) || negb (fits value) then quote_str Q2 value else value in
         if fits value' then Ok (line (head ++ value'))
@@ -119,7 +116,8 @@ Definition show_attr (prefix:str) (name:str) (v:aval) (level:Z) (width:Z) : res 
           let inner := removelast (drop 1 value') in
           match wrap inner (width - 2 - zlen indent)%Z with
           | None => UErr (s_ "Unmodelled") (s_ "wrap") 0
-          | Some blocks =>
+          | Some blocks0 =>
+              let blocks := match blocks0 with [] => [inner] | _ => blocks0 end in
               Ok (List.concat (map (fun ib : nat * str =>
                                  let (i, b) := ib in
                                  line ((if (i =? 0)%nat then head else indent) ++ dq :: b ++ [dq]))
@@ -154,7 +152,7 @@ Fixpoint show_words (ws:list word) (cur:str) (indent:str) (width:Z) : str :=
   | [] => line cur
   | w :: r =>
       let plus := cur ++ " " :: str_of_word w in
-      if (zlen plus >? width - 2)%Z && (length indent <? length cur)%nat
+      if (zlen plus >? width - 2)%Z && (length indent <? length cur)%nat && negb (mem nl cur)
       then line (cur ++ s_ " \") ++ show_words r (indent ++ " " :: str_of_word w) indent width
       else show_words r plus indent width
   end.
@@ -167,7 +165,7 @@ Definition show_def (h:hdr) (ws:list word) (a:attrs) (merged:list str) (prefix:s
   if hid then Ok [] else
   let l0 := prefix ++ (if odis h then ["!"] else []) ++ join_with ["."] (merged ++ [oname h])
             ++ (if eqs (oname h) include_w then [] else s_ " =") in
-  let indent := spaces (length l0) in
+  let indent := prefix ++ spaces (length l0 - length prefix) in
   let warn := if py_truthy (get_attr (s_ "deprecated") a) then line (prefix ++ s_ "# WARNING: deprecated parameter") else [] in
   do at_ <- show_attributes prefix def_attr_names a level width ;
   Ok (warn ++ show_words ws l0 indent width ++ at_).
